@@ -52,6 +52,7 @@ func (fr *Frame) encodeInstr(b *ssa.BasicBlock, instr ssa.Instruction) {
 				fr.setMem(fieldMem(ty.Name, f.Name), srt, store(h, r, f.Ty.Zero(u)))
 			}
 			fr.define(x, r, ty)
+			fr.pendingGhost = append(fr.pendingGhost, TV{r, ty})
 		case KArrPtr:
 			fr.regElem(ty.Elem)
 			a := fr.bump(ctrArr(ty.Elem))
@@ -184,6 +185,10 @@ func (fr *Frame) encodeInstr(b *ssa.BasicBlock, instr ssa.Instruction) {
 		if v.Ty.K == KInt && to.K == KInt {
 			vc.note("integer conversions are value-preserving (machine integers treated as mathematical)")
 			fr.vals[x] = TV{v.T, to}
+		} else if to.K == KString || to.K == KInt {
+			// string(byte), []byte <-> string etc.: arbitrary value of the target type
+			vc.note("conversions between strings and bytes/runes are over-approximated by an arbitrary value")
+			fr.declareVal(x, to)
 		} else {
 			vc.addErr("%s: conversion %s -> %s unsupported", fr.label, x.X.Type(), x.Type())
 		}
@@ -254,10 +259,12 @@ func (fr *Frame) encodeInstr(b *ssa.BasicBlock, instr ssa.Instruction) {
 	case *ssa.Call:
 		fr.encodeCall(x)
 	case *ssa.If:
+		fr.defineGhosts()
 		c := fr.val(x.Cond)
 		fr.addEdge(b, b.Succs[0], and(fr.reach, c.T))
 		fr.addEdge(b, b.Succs[1], and(fr.reach, not(c.T)))
 	case *ssa.Jump:
+		fr.defineGhosts()
 		fr.addEdge(b, b.Succs[0], fr.reach)
 	case *ssa.Return:
 		fr.encodeReturn(x)
@@ -378,6 +385,8 @@ func (fr *Frame) encodeStore(x *ssa.Store) {
 			fr.frameOblige("frame", fr.writableArr(a.E, a.arr), "write to slice element: backing array is fresh or named in modifies", x.Pos())
 			m := fr.getMem(elemMem(a.E), elemMemSort(a.E))
 			fr.setMem(elemMem(a.E), elemMemSort(a.E), store(m, a.arr, store(sel(m, a.arr), a.idx, fr.coerce(v, a.E))))
+			// make the read-back term available to E-matching (witness for existential facts about the written cell)
+			vc.seed(sel(sel(fr.getMem(elemMem(a.E), elemMemSort(a.E)), a.arr), a.idx), a.E.Sort())
 		case aCell:
 			srt := arraySort("Int", a.E.Sort())
 			m := fr.getMem(cellMem(a.E), srt)
@@ -505,17 +514,15 @@ func (fr *Frame) encodeBinOp(x *ssa.BinOp) {
 	case token.QUO, token.REM:
 		fr.oblige("div", fmt.Sprintf("div#%d", fr.ord("div")), safetyProps, not(eq(rt, "0")), "division by zero", x.Pos(), "")
 		fr.assumeHere(not(eq(rt, "0")), "dv")
-		// Go truncates toward zero; only emitted for non-negative operands
-		if x.Op == token.QUO {
-			fr.define(x, "(div "+lt+" "+rt+")", ty)
-		} else {
-			fr.define(x, "(mod "+lt+" "+rt+")", ty)
-		}
-		vc.addErr("%s: integer division is outside the supported subset", fr.label)
+		vc.note("integer division / remainder are over-approximated by an arbitrary value")
+		fr.declareVal(x, ty)
 	case token.LAND, token.LOR:
 		vc.addErr("%s: unexpected logical binop", fr.label)
 	default:
-		vc.addErr("%s: binary operator %s unsupported", fr.label, x.Op)
+		// bit operations and shifts: the result is over-approximated by an arbitrary value of the type (sound for safety
+		// and frame obligations; functional clauses that depend on it cannot be proved)
+		vc.note("bit operations / shifts are over-approximated by an arbitrary value")
+		fr.declareVal(x, ty)
 	}
 }
 
@@ -585,4 +592,39 @@ func (fr *Frame) encodeSlice(x *ssa.Slice) {
 	default:
 		vc.addErr("%s: slice of %s unsupported", fr.label, xv.Ty)
 	}
+}
+
+// defineGhosts performs the ghost assignments "r.g := def(r)" for the objects this activation allocated in the
+// current block and has not defined yet (ghost fields are ordinary ghost state: assigning them is always sound;
+// the type invariant then checks that the definition holds for every object).
+func (fr *Frame) defineGhosts() {
+	if len(fr.pendingGhost) == 0 {
+		return
+	}
+	vc := fr.vc()
+	for _, obj := range fr.pendingGhost {
+		for _, g := range vc.cs.GhostFields {
+			if g.Struct != obj.Ty.Name {
+				continue
+			}
+			srt, gty, err := vc.fieldSort(g.Struct, g.Name)
+			if err != nil {
+				vc.addErr("ghostfield %s.%s: %v", g.Struct, g.Name, err)
+				continue
+			}
+			env := &SpecEnv{vc: vc, vars: map[string]TV{g.Self: obj}, st: fr.st, old: fr.topFrame.funcEntry}
+			tv, err := env.tr(g.Def)
+			if err != nil {
+				vc.addErr("ghostfield %s.%s: %v", g.Struct, g.Name, err)
+				continue
+			}
+			if tv.Ty.Sort() != gty.Sort() {
+				vc.addErr("ghostfield %s.%s: definition has type %s, want %s", g.Struct, g.Name, tv.Ty, gty)
+				continue
+			}
+			h := fr.getMem(fieldMem(g.Struct, g.Name), srt)
+			fr.setMem(fieldMem(g.Struct, g.Name), srt, store(h, obj.T, tv.T))
+		}
+	}
+	fr.pendingGhost = nil
 }
